@@ -20,7 +20,7 @@ def X(raw, expect='same', mod=False, fn=None, must=False):
 def F(data, ino, mode=0o644): return ['f', mode, bytearray(data), {}, ino]
 def base_layers(upper=True, big=False):
     low = {'a': F(b'lower-a', 811), 'c': F(b'lower-c', 812), 'd': ('d', 0o755, {}, {'f': F(b'lower-df', 813)})}
-    if big: low['e'] = ('b', 0o644, 4 * 1024 * 1024 + 5)
+    if big: low['e'] = ('b', 0o644, 8 * 1024 * 1024 + 5)       # three chunks of the 4 MiB copy-up loop
     ls = {1: ('d', 0o755, {}, low)}
     if upper: ls[0] = ('d', 0o755, {}, {'b': F(b'upper-b', 814)})
     return ls
@@ -96,6 +96,18 @@ def free_cases(prop, restart):
                 if f == 'd' and 's' in sub: continue      # type-correct requests only: the kernel never sends SIZE for a directory
                 ops.append(X('setattrx %s %s %x %d 0 0' % (f, sub, mode, size), 'fn', mod=True, fn=fn_setattr(f, sub, mode, size), must=upper))
         add('xs%d' % upper, ops, upper)
+        # E2h SETATTR carrying a file handle (the "deal with handle first" path): every file situation x read-only and writable
+        # handle x each valid bit (and some pairs).  A handle on a LOWER file must not be used for the change: the unchanged code
+        # falls back to the path (copy-up); an upper handle is used directly.  SIZE through a read-only upper handle is refused by the host.
+        ops = [X('chmod c 1a0', 'fn', mod=True, fn=fn_setattr('c', 'm', 0o640, 0), must=upper)]
+        for hf in ('r', 'w'):
+            for i, sub in enumerate(['m', 'u', 'g', 'a', 't', 'n', 'ug', 'mat', 's', 'ms']):
+                if hf == 'r' and sub == 'ms': continue     # type-correct requests only: the kernel sends SIZE with a handle it may write through
+                for j, f in enumerate(files):
+                    mode = [0o600, 0o640, 0o755, 0o444][(i + j) % 4]; size = [3, 9, 0, 12][(i + 2 * j) % 4]
+                    ops.append(X('setattrh %s %s %s %x %d 0 0' % (f, hf, sub, mode, size), 'fn', mod=True, fn=fn_setattr(f, sub, mode, size),
+                                 must=upper and not ('s' in sub and hf == 'r')))
+        add('xh%d' % upper, ops, upper)
         # E3 CREATE flag words (the kernel sends CREATE for a negative name only), E4 raw names
         ops = []
         for fl in ('rw+cx', 'w+c', 'r+c', 'rw+cxt', 'w+ca', 'rw+x', 'r'):
@@ -119,9 +131,10 @@ def free_cases(prop, restart):
     if prop == 'C11':
         # a client with CAP_MKNOD creates a 0:0 character device: on disk that IS a whiteout (known finding client-creates-whiteout-device)
         add('xw1', [X('mknodx e 2000 0 0', 'any', mod=True)], True)
-    # E5 environment sizes: a lower file larger than the 4 MiB copy-up chunk is copied up whole
-    add('xbig', [X('read e 4194300 16'), X('chmod e 1a0', 'fn', mod=True, fn=fn_setattr('e', 'm', 0o640, 0), must=True), X('read e 4194300 16'),
-                 X('write e 4194309 5a', 'any', mod=True, must=True), X('read e 4194300 16')], True, big=True)
+    # E5 environment sizes: a lower file of three 4 MiB copy-up chunks (8 MiB + 5) is copied up whole: the views carry its length
+    # and a digest of all its bytes (computed by the harness through READ), so "view unchanged but for the mode" compares every byte
+    add('xbig', [X('read e 8388600 16'), X('chmod e 1a0', 'fn', mod=True, fn=fn_setattr('e', 'm', 0o640, 0), must=True), X('read e 8388600 16'),
+                 X('read e 4194300 16'), X('write e 8388613 5a', 'any', mod=True, must=True), X('read e 8388600 16')], True, big=True)
     # E6 configuration cells whose purpose is to change what requests do: no_open (no OPEN / RELEASE, handle 0), no_readdir
     for upper in (True, False):
         add('xo%d' % upper, [X('read a 0 8', 'any'), X('write a 0 58 w', 'any', mod=True), X('write d/f 0 58 r', 'any', mod=True), X('truncate a 1', 'any', mod=True),
@@ -135,7 +148,7 @@ def analyse_free(prop, cases, obs):
     for c in cases:
         ob = obs.get(c['id'])
         if (not ob or not ob.get('done') or ob['flags'] or len(ob['ops']) != len(c['ops'])
-                or any(oc.ser(t) != ob['raw'].get(k) for k, t in c['layers'].items())):
+                or any(oc.ser(t) != oc.norm_big(ob['raw'].get(k)) for k, t in c['layers'].items())):
             broken.append({'kind': 'harness', 'name': 'audit block: harness output incomplete', 'case': c['id'], 'flags': ob and ob['flags']}); continue
         cfg = c.get('cfg', '')
         if cfg == 'o' and prop == 'C11':              # C11 compares the two instances; that READ fails in this cell is C10's finding
@@ -181,8 +194,8 @@ def analyse_free(prop, cases, obs):
     return findings, broken
 
 # ---- configuration cells through the ordinary pipeline (model = implementation: every cell is the same state transformer)
-CELLS_QUICK = ['w', 'd', 'k', 'm', 'wdkx']
-CELLS_FULL = CELLS_QUICK + ['a', 'n', 'x', 'mw', 'md', 'mwdk', 'i']
+CELLS_QUICK = ['w', 'm', 'wdkx']
+CELLS_FULL = CELLS_QUICK + ['d', 'k', 'a', 'n', 'x', 'mw', 'md', 'mwdk', 'i']
 def cell_cases(prop, restart, full=False, cells=None):
     corpus = oc.corpus_cases(prop, restart)
     flag = {c['id']: c for c in oc.open_flag_cases(restart, full=True)}
